@@ -537,12 +537,75 @@ def permissive_cases(rnd):
         yield specs, ('class', 'K1'), M([(S('count'), S('3', 'int'))]), 'valid'
 
 
+def alias_cases(rnd):
+    """One anchored scalar (or small collection) aliased at positions of DIFFERENT declared types: str / Any / untyped next to an
+    Enum, a string-like class, a Path -- in both parameter orders, at top level and inside a list."""
+    col = {'name': 'Col', 'kind': 'enum', 'members': ['red', 'green'], 'bases': [], 'registered': True}
+    idt = {'name': 'Ident', 'kind': 'str', 'bases': [], 'strbase': 'yatiml.String', 'registered': True}
+    for first_plain in (True, False):
+        for plain_t in ('str', 'any', None):
+            for typed_t in (('class', 'Col'), ('class', 'Ident'), 'path'):
+                ps = [{'name': 'label', 'type': plain_t, 'required': True}, {'name': 'typed', 'type': typed_t, 'required': True}]
+                if not first_plain:
+                    ps.reverse()
+                host = {'name': 'A', 'kind': 'obj', 'bases': [], 'params': ps, 'extra': False, 'registered': True}
+                lst = {'name': 'L', 'kind': 'obj', 'bases': [], 'extra': False, 'registered': True,
+                       'params': [{'name': 'items', 'type': ('list', 0, ('class', 'A')), 'required': True}]}
+                specs = [col, idt, host, lst]
+                shared = S('red')
+                doc = M([(S(p['name']), shared) for p in ps])
+                yield specs, ('class', 'A'), doc, 'alias-scalar'
+                yield specs, ('class', 'L'), M([(S('items'), Q([doc, M([(S(p['name']), S('green')) for p in ps])]))]), 'alias-scalar-nested'
+    # a collection shared between an Any position and a typed one, and the same mapping many times
+    k = {'name': 'K', 'kind': 'obj', 'bases': [], 'extra': False, 'registered': True,
+         'params': [{'name': 'a', 'type': 'any', 'required': True}, {'name': 'b', 'type': ('list', 0, 'int'), 'required': True},
+                    {'name': 'c', 'type': ('dict', 3, 'str', ('list', 0, 'int')), 'required': False}]}
+    shared = Q([S('1', 'int'), S('2', 'int')])
+    yield [k], ('class', 'K'), M([(S('a'), shared), (S('b'), shared)]), 'alias-collection'
+    yield [k], ('class', 'K'), M([(S('a'), S('x')), (S('b'), shared), (S('c'), M([(S('k%d' % i), shared) for i in range(60)]))]), 'alias-many'
+    big = Q([S(str(i), 'int') for i in range(70)])
+    yield [k], ('class', 'K'), M([(S('a'), big), (S('b'), big)]), 'alias-big'
+
+
+def keyclass_cases(rnd):
+    """Dict keys of a string-like class whose savorize hook replaces the key node (set_value), and plain ones."""
+    for sav in ([('op', ('setvalue', 'renamed'))], None, [('if', ('isscalar', 'str'), [('setvalue', 'seen')], [])]):
+        name = {'name': 'Name', 'kind': 'str', 'bases': [], 'strbase': rnd.choice(['yatiml.String', 'UserString']), 'registered': True}
+        if sav is not None:
+            name['savorize'] = sav
+        host = {'name': 'H', 'kind': 'obj', 'bases': [], 'extra': False, 'registered': True,
+                'params': [{'name': 'tbl', 'type': ('dict', rnd.choice([3, 4]), ('class', 'Name'), 'int'), 'required': True}]}
+        specs = [name, host]
+        d = M([(S('a'), S('1', 'int'))])
+        yield specs, ('dict', 3, ('class', 'Name'), 'int'), d, 'key-class'
+        yield specs, ('list', 0, ('dict', 3, ('class', 'Name'), 'int')), Q([encode.copy_tree(d)]), 'key-class-nested'
+        yield specs, ('class', 'H'), M([(S('tbl'), encode.copy_tree(d))]), 'key-class-attr'
+
+
+def transform_cases(rnd):
+    """Savorize hooks calling the structural transforms on attributes whose items have key attributes of every kind: the
+    transforms must refuse (SeasoningError -> RecognitionError) or leave alone, never let another exception out."""
+    keys = [S('k'), S('7', 'int'), S('2001-01-01', 'timestamp'), S('x', '!Item'), S('abc', 'int'), S('', 'float'), S('~', 'null'),
+            Q([S('1', 'int')]), M([(S('a'), S('1', 'int'))]), S('true', 'bool')]
+    for op in (('seq2map', 'items', 'id', None, True), ('seq2map', 'items', 'id', 'v', False), ('idx2map', 'items', 'id', 'v'),
+               ('map2seq', 'items', 'id', 'v'), ('map2idx', 'items', 'id', 'v')):
+        c = {'name': 'T', 'kind': 'obj', 'bases': [], 'extra': False, 'registered': True, 'recognize': [('mapping',)],
+             'params': [{'name': 'items', 'type': 'any', 'required': True}], 'savorize': [('op', op)]}
+        for kn in keys:
+            item = M([(S('id'), encode.copy_tree(kn)), (S('v'), S('1', 'int'))])
+            yield [c], ('class', 'T'), M([(S('items'), Q([item]))]), 'transform-key-kinds'
+            yield [c], ('class', 'T'), M([(S('items'), M([(S('k'), encode.copy_tree(item))]))]), 'transform-key-kinds'
+
+
 # ---------------------------------------------------------------- standard case stream
 
 def gen_cases(rnd, n_models, docs_per_model, hooks=True, share_p=0.0):
     """Yields (specs, tyspec, text, desc)."""
+    directed = [alias_cases(rnd)]
     if hooks:
-        for specs, tyspec, node, desc in permissive_cases(rnd):
+        directed += [permissive_cases(rnd), keyclass_cases(rnd), transform_cases(rnd)]
+    for fam in directed:
+        for specs, tyspec, node, desc in fam:
             try:
                 yield specs, tyspec, serialize(node), desc
             except Exception:       # noqa
